@@ -32,7 +32,32 @@ def parse_listing(out):
     return lines, marker, nums
 
 
-def record(exe, argv, cmds, open_event, with_state=True, timeout=15):
+def parse_view(out, hascur):
+    """the two-column view printed after a command: header, rule, rows 'left | right', optionally followed by '#NNNN text'"""
+    ls = out.split("\n")
+    for k in range(len(ls) - 1):
+        m = re.match(r"^(-+)-\+-(-+)$", ls[k + 1])
+        if ls[k].startswith("script") and m:
+            lcap, rcap = len(m.group(1)), len(m.group(2))
+            left, right = [], []
+            curn, curtext = -1, ""
+            for l in ls[k + 2:]:
+                mm = re.match(r"^#(\d{4}) (.*)$", l)
+                if mm:
+                    curn, curtext = int(mm.group(1)), mm.group(2); break
+                if len(l) < lcap + 3 or l[lcap + 1:lcap + 3] != "| ":
+                    if l.strip():
+                        curn, curtext = -2, l          # an unnumbered line (section header)
+                    break
+                left.append(l[:lcap + 1].rstrip(" ")); right.append(l[lcap + 3:].strip(" "))
+            # columns are filled from the top: drop the padding entries
+            while left and left[-1] == "": left.pop()
+            while right and right[-1] == "": right.pop()
+            return {"e": "View", "lcap": lcap, "rcap": rcap, "left": left, "right": right, "curn": curn, "curtext": curtext, "hascur": hascur}
+    return None
+
+
+def record(exe, argv, cmds, open_event, with_state=True, timeout=15, views=False):
     """returns list of events (Open first). cmds: 'step' | 'rewind' | 'exec ...' | 'print' """
     R = ptydrv.Repl([exe] + argv, timeout=timeout)
     evs = [open_event]
@@ -51,6 +76,9 @@ def record(exe, argv, cmds, open_event, with_state=True, timeout=15):
         R.close()
         return evs
     evs.append(listing())
+    if views:
+        v = parse_view(R.banner, True)
+        if v: evs.append(v)
     for c in cmds:
         out, err = R.cmd(c)
         if "<<NO PROMPT>>" in out or not R.alive():
@@ -69,6 +97,9 @@ def record(exe, argv, cmds, open_event, with_state=True, timeout=15):
         else:
             continue
         evs.append(e)
+        if views and e.get("ok") and e["e"] in ("Step", "Rewind", "Exec"):
+            v = parse_view(out, e["e"] != "Exec")
+            evs.append(v or {"e": "View", "lcap": 0, "rcap": 0, "left": [], "right": [], "curn": -1, "curtext": "", "hascur": False, "missing": True})
         evs.append(listing())
         if e["e"] in ("Step", "Exec") and not e["ok"]:
             break
